@@ -49,7 +49,7 @@ def ev_row(case, rec):
         # zone
         if case['zone'] == 0:
             okz = (not math.isnan(d['cm'])) and abs(d['lonf'] - d['cm']) <= zw / 2 + 1e-9
-            if case['prj'] in ('utm', 'p0', 'p1'):
+            if case['prj'] != 'isg':
                 okz = okz and 1 <= d['zone'] <= 60
             if not okz:
                 rec.fail('automatic zone is not the zone whose central meridian is within half a zone width',
